@@ -25,6 +25,10 @@ def run(tier, seed):
         "the bound on timer rounds (2 x (sum over live nodes of (max view - own view + faulty members + 4)) + 10) is a heuristic stand-in for 'eventually'; measured worst case on the unchanged tree is 0.82 of the inner bound",
         "messages lost before stabilisation stay lost: acceptors of a proposal made before stabilisation are not required to commit"]
     cluster.judge(rep, PID, tier, seed, args=_args(tier, seed), what="asynchronous prefix then timely fair schedule")
+    # design level: MC_LHLive.tla (LHNode + network + Byzantine member + stabilisation point) exhaustive, and its behaviours on real nodes
+    from props import specreplay
+    rep.assumptions.append("MC_LHLive: N=4, one Byzantine member (budget 1-2 deliveries), one block, timers abstracted to 'the members in the lowest view time out first, and only when no delivery has any effect'; Canon = TRUE explores deliveries to different members in one canonical order (they commute) and lets the Byzantine member act only before GST and at quiet points")
+    specreplay.judge_live(rep, PID, tier, seed)
     return rep.finish()
 
 
